@@ -18,12 +18,14 @@ CLAIMED = {
               'propagate_dft through every carrier -- Tilt planes split into 1-3 elements applied in seeded and reversed order, '
               'Wavefront(tilt=), fit_tilt of the ramp-carrying OPD per segment (OPD and amplitude arrays also Fortran-ordered, transposed, '
               'strided or cropped views; copy and in-place forms), a fit / OPD-update / re-fit history, DispersiveTilt elements of trace/dispersion '
-              'order 1-3 on both sides of the reference wavelength mixed with Tilt elements, per-axis pupil sampling, output masks -- under '
-              'cache-size faults, and compared with the eager twin (every tilt as '
+              'order 1-3 on both sides of the reference wavelength mixed with Tilt elements (also re-pointed by their owner after use), per-axis '
+              'pupil sampling, output masks, one segment steered off the detector, the same fields listed in reverse order, fit / rescale / '
+              're-fit histories -- under cache-size faults, and compared with the eager twin (every tilt as '
               'an OPD ramp in a monolithic pupil) on the samples every Field of both evaluates. Further oracles: Field.shift and the '
               'observed window placement equal the statement\'s displacement (focal_length*angle/du*oversample per axis, +x to increasing '
               'row, +y to decreasing column) and are additive and order-independent; fit_tilt leaves zero least-squares tip/tilt, keeps '
-              'the piston and OPD + recorded tilt equals the original; dispersive displacements lie on the trace at the arc length the '
+              'the piston and OPD + recorded tilt equals the original (also for the second fit of a fit / update / re-fit history, whether the update '
+              'went through the attribute or into the array the plane holds, and after rescale, which must keep the angles on record); dispersive displacements lie on the trace at the arc length the '
               'dispersion maps to the wavelength (orders 1-3, positive and negative arc lengths; the twin of a dispersive carrier gets the '
               'displacement from an independent root/arc-length solver). Exploration.'),
         note=('The eager twin is imaged by the same propagate_dft, so an error common to both sides (C02) is invisible. Comparison is on '
@@ -34,11 +36,13 @@ CLAIMED = {
         text=('Seeded deterministic simulation reaching wavefront states through programs: 1-4 plane multiplications (default, scalar '
               'and array planes of even/odd/non-square shapes, every amplitude/OPD/mask combination -- scalar amplitude with an array mask, mask '
               'only, no OPD, boolean / integer masks, non-contiguous arrays --, monolithic or 2-4 segment masks with overlapping bounding boxes, '
-              'Tilt planes, fitted pupils, attribute updates and caller writes between multiplies), optionally a DFT propagation (random shape, prop_shape, oversampling, output mask, per-axis pixels), an Image '
+              'Tilt planes, fitted and rescaled pupils, slits, generic pupil-typed planes, the amp= alias, attribute updates, caller writes into OPD / '
+              'amplitude arrays and refills of mask buffers between multiplies, all four call forms), optionally a DFT propagation (random shape, prop_shape, oversampling, output mask, per-axis pixels), an Image '
               'plane and a propagation back. After every step the public views are read: field and intensity are compared with the dense '
               'zero-padded-plane model of the wavefront\'s documented fields (intensity == |field|^2 also where fields overlap), and '
               'insert(out, weight) is driven into accumulators of arbitrary shape (smaller, larger, other parity, missing the wavefront '
-              'entirely) and arbitrary prior content (fault F2) and must leave before + weight*intensity and return the same array; before '
+              'entirely) and arbitrary prior content (fault F2) and must leave before + weight*intensity and return the same array; every view is read '
+              'again after the caller scribbled into the arrays it was handed and after a weighted insert; before '
               'any propagation the field must equal the product of the planes\' dense phasors amplitude*mask*exp(2 pi i OPD/lambda); '
               'wavelength, focal-length hand-over and the default plane are checked; planes with conflicting pixel scales are injected '
               '(fault F5) and must be refused with both operands byte-identical. Exploration.'),
@@ -50,7 +54,8 @@ CLAIMED = {
         text=('Seeded deterministic simulation: 1-3 simulated callers run programs (<= 12 steps each) of plane multiplications '
               '(all five plane types, every public plane class, all four call forms incl. w *= p) and DFT/FFT propagations over a shared pool that '
               'starts from wavefronts built with every constructor argument (type given or omitted, focal length, pixel scale, tilt) and holds '
-              'pupils with different focal lengths, '
+              'pupils with different focal lengths, planes built with the amp= alias, planes carrying the sampling a propagated wavefront has, two '
+              'stops with disjoint masks (dark wavefronts), planes re-assigned by their owner before a refusal, masked propagations, '
               'interleaved by a seeded scheduler with injected refusals (biased to land right after a type transition), duplicate '
               'calls and cache/RNG perturbations. Every step is judged against the multiplication-rules table and the ptype/class '
               'table parsed at run time from the documentation; refused steps are bracketed by byte snapshots of both operands; '
@@ -68,7 +73,8 @@ CLAIMED = {
               'pixel scales, monolithic or segmented pupils of either parity) through propagate_fft with ONE scratch buffer reused across '
               'the loop: pre-filled with NaN/inf/garbage, stale from the previous wavelength afterwards, sized exactly as '
               'lentil.scratch_shape advertises, larger, or one short, C- or Fortran-ordered or a window of a larger work area; refused calls '
-              '(oversize shape, tilt-carrying wavefront from a Tilt plane / Wavefront(tilt=) / fitted pupil / DispersiveTilt / Grism, short scratch) are injected inside the loop, propagations are duplicated and the '
+              '(oversize shape -- also kept in a caller-owned integer array --, tilt-carrying wavefront from a Tilt plane / Wavefront(tilt=) / fitted pupil / '
+              'DispersiveTilt / Grism, short scratch), an out-of-regime quick look on the same wavefront first, the field view read and edited before a call are injected inside the loop, propagations are duplicated and the '
               'scratch re-dirtied between duplicates. Oracles: scratch result == no-scratch result; both == the real propagate_dft '
               'evaluated at the wavelength the FFT result reports; result metadata; acceptance/refusal set; refusals leave scratch and '
               'wavefront bytes unchanged; earlier results stay byte-identical while the scratch is reused (no aliasing). Exploration.'),
@@ -102,7 +108,8 @@ CLAIMED = {
               'operators in method and dunder form with every sampling (min/left/right/float), interpolation (linear/quadratic/cubic) and fill '
               'option, scalar / vector / reflected operands and operands that must be refused (wrong-length vector, non-numeric), edits of '
               'results, and -- the history dimension -- to(unit) calls by the owner on shared spectra between uses, followed by a repeat of an '
-              'earlier operation and by operand-swapped twins. Oracles: result == operator applied to the operands\' interpolated values on '
+              'earlier operation and by operand-swapped twins; operands with an edit history, integer-typed spectra, list / tuple / ndarray '
+              'operands, augmented-assignment forms, callers writing in place into result and operand arrays before an operation is repeated. Oracles: result == operator applied to the operands\' interpolated values on '
               'the uniform union grid (list model + scipy interp1d, executed from the operands\' public pre-state); scalar/vector ops '
               'element-wise on the unchanged grid; a+b == b+a and a*b == b*a as physical spectra; same operation after a representation '
               'change gives the same physical spectrum; every spectrum in the store other than a documented edit target is byte-identical '
@@ -117,7 +124,8 @@ CLAIMED = {
         text=('Seeded deterministic simulation of a classical stateful object: an editor applies histories (4-25 steps) of '
               'crop/trim/pad/append(copy or in place)/resample/to to 1-3 spectra (uniform and non-uniform grids, unitless and flux-density '
               'values, all four wavelength units) while a reader (same or second caller) issues integrate/bin/sample and composite '
-              'linearity/additivity checks between any two edits, sometimes scaling in place the array a query returned and asking again; about 30% of edits are ones that must be refused (unsorted, duplicated or '
+              'linearity/additivity checks between any two edits (also in foreign units, with one option flipped, after value assignment or in-place '
+              'writes through the value array), sometimes scaling in place the array a query returned and asking again; about 30% of edits are ones that must be refused (unsorted, duplicated or '
               'non-positive resample grid, touching/overlapping append, bad unit or method) -- the library\'s analogue of a crash between two '
               'writes -- and accepted crops/trims/pads are duplicated. After EVERY step, accepted or refused, every spectrum must be '
               'well-formed (strictly increasing positive wavelengths, one value per wavelength, asarray() usable); each edit\'s post-state is '
@@ -135,7 +143,10 @@ CLAIMED = {
               'current, power-spectrum surface error on square and non-square masks; int and array seeds) and unseeded cosmic-ray frames in '
               'an interleaved schedule while environment events draw from or reseed the global generator between steps, calls are '
               'duplicated, and signals that must be refused (a negative pixel -- also one that is tiny next to the frame peak --, an all-negative '
-              'frame, a pixel above 9.22e18) and dark rates at floating-point edges (just below an integer, 2**40+1) are injected. Oracles: a seeded '
+              'frame, a pixel above 9.22e18, a frame its owner made illegal in place between two calls) and dark rates at floating-point edges (just '
+              'below an integer, 2**40+1), seeds that differ only beyond bit 32 / 64, one-argument twins of every call, frames with zero-signal '
+              'pixels and one megapixel-plus frame are injected; frames a caller still holds must not change when anybody draws again; sampled '
+              'calls are compared with the same call in a pristine process. Oracles: a seeded '
               'result is bit-identical across repeats, across positions in the schedule and across global-RNG states (interleaved pass vs '
               'solo pass started from a different global seed); the global state is untouched by every seeded call; different seeds give '
               'different frames; support (integer, non-negative, floor(rate), zero outside the mask, exact RMS, refusals in both shot-noise '
